@@ -22,6 +22,7 @@ import (
 type ufApp struct {
 	args []T
 	res  T
+	conc bool // real value of a fully concrete pre-image
 }
 
 func (m *Machine) hashAccOf(p Ptr) []T { return m.hashAcc[p] }
@@ -73,22 +74,21 @@ func (m *Machine) ufHash(family string, resW int, bs []T) T {
 		}
 		raw[i] = byte(b.Val)
 	}
+	var concRes T
 	if conc {
 		switch family {
 		case "xxh":
-			return m.F.Const(64, xxhash.Sum64(raw))
+			concRes = m.F.Const(64, xxhash.Sum64(raw))
 		case "sha1":
 			sum := sha1.Sum(raw)
-			var res T
 			for i := 0; i < 20; i++ {
 				b := m.F.Const(8, uint64(sum[i]))
-				if res == nil {
-					res = b
+				if concRes == nil {
+					concRes = b
 				} else {
-					res = m.F.Concat(res, b)
+					concRes = m.F.Concat(concRes, b)
 				}
 			}
-			return res
 		}
 	}
 	if m.ufApps == nil {
@@ -109,8 +109,14 @@ func (m *Machine) ufHash(family string, resW int, bs []T) T {
 			}
 		}
 	}
-	res := m.F.Var(fmt.Sprintf("uf!%s_%d#%d", family, len(bs), len(prev)), resW)
+	res := concRes
+	if res == nil {
+		res = m.F.Var(fmt.Sprintf("uf!%s_%d#%d", family, len(bs), len(prev)), resW)
+	}
 	for _, a := range prev {
+		if concRes != nil && a.conc {
+			continue // two real values: nothing to relate
+		}
 		if len(a.args) != len(bs) {
 			if m.Conf.HashInjective {
 				m.addPCQuiet(m.F.Not(m.F.Eq(a.res, res)))
@@ -128,7 +134,7 @@ func (m *Machine) ufHash(family string, resW int, bs []T) T {
 		}
 	}
 	n := len(prev)
-	m.ufApps[family] = append(prev, ufApp{args: bs, res: res})
+	m.ufApps[family] = append(prev, ufApp{args: bs, res: res, conc: concRes != nil})
 	m.onUndo(func() { m.ufApps[family] = m.ufApps[family][:n] })
 	return res
 }
